@@ -106,14 +106,19 @@ def resolve(data, key: str):
     return ("OK", cur)
 
 
-def fields_ok(tmpl: str) -> tuple[bool, str]:
+FILLS: dict[str, set[tuple[int, tuple[str, ...]]]] = {}      # key template -> how format() was seen to fill it: (positional arguments, keyword names)
+
+
+def fields_ok(tmpl: str, fills: set[tuple[int, tuple[str, ...]]] | None = None) -> tuple[bool, str]:
     try:
         flds = [f for _lit, f, _spec, _conv in string.Formatter().parse(tmpl) if f is not None]
     except ValueError as e:
         return False, f"malformed braces ({e})"
-    bad = [f for f in flds if f not in ("", "0")]
+    fills = fills or {(1, ())}
+    bad = [f for f in flds if any(not ((f == "" and npos >= 1) or (f.isdigit() and int(f) < npos) or f in kws) for npos, kws in fills)]
     if bad:
-        return False, f"field(s) {bad} cannot be filled by the single positional argument (KeyError/IndexError at run time)"
+        how = " / ".join(f"{npos} positional argument(s)" + (f" and {', '.join(k + '=' for k in kws)}" if kws else "") for npos, kws in sorted(fills))
+        return False, f"field(s) {bad} cannot be filled by the {'single positional argument' if fills == {(1, ())} else how} (KeyError/IndexError at run time)"
     if "" in flds and "0" in flds:
         return False, "mixes automatic and manual field numbering (ValueError at run time)"
     return True, ""
@@ -290,12 +295,14 @@ def _closure(ctx, paths) -> None:
         few = resolve(data, "custom.units.few_second")[0] == "OK"
         # instantiate
         inst: set[tuple[str, str]] = set()
+        fill_of: dict[str, set | None] = {}
         for k, use in templates:
             if "<unresolved" in k:
                 ctx.unverified("KEY-CLOSURE", f"{loc}/{k}", "key could not be evaluated symbolically", rel)
                 continue
             for pl in sorted(reach if "<plural>" in k else [""]):
                 inst.add((k.replace("<plural>", pl), use))
+                fill_of[k.replace("<plural>", pl)] = FILLS.get(k)
         for k, use in sorted(inst):
             st, val = resolve(data, k)
             total += 1
@@ -318,7 +325,7 @@ def _closure(ctx, paths) -> None:
                    f"key `{k}` " + ("resolves" if ok else f"does not resolve to a string ({st}: {str(val)[:40]}): Locale.get returns None / raises and "
                                     f".format() fails for this locale"), rel)
             if ok and use == "format":
-                ok_f, why = fields_ok(val)
+                ok_f, why = fields_ok(val, fill_of.get(k))
                 ctx.ob("PLACEHOLDERS", f"{loc}/{k}", ok_f, f"`{val}`: {why}", rel)
         # in_words keys
         for u in UNITS:
@@ -556,7 +563,13 @@ def _human_tabulate(ctx, m, fn):
                                             return None
                                         return {"<plural>": Tpl(format=lambda x, _k=key: f"[{_k}/<plural>]({x})")}
 
-                                    def fmt(x, _k=key):
+                                    def fmt(*a, _k=key, **kw):
+                                        # a template is filled with one value, by position ({0}) and / or by name ({time}, {count}): the same value
+                                        vals = list(a) + list(kw.values())
+                                        if not vals or any(v != vals[0] for v in vals):
+                                            raise core.Unsupported(f"template `{_k}` filled with {len(vals)} different values")
+                                        x = vals[0]
+                                        FILLS.setdefault(_k, set()).add((len(a), tuple(sorted(kw))))
                                         used.discard((_k, "value"))
                                         used.add((_k, "format"))
                                         return f"[{_k}]({x})"
